@@ -44,7 +44,7 @@ func frXRead(in []byte, max uint32) map[string]any {
 			f = frFieldsOfX(x)
 		}
 	}()
-	return map[string]any{"res": res, "f": f}
+	return map[string]any{"res": res, "same": 0, "f": f}
 }
 
 func frFieldsOfX(x xh2.Frame) frFields {
